@@ -449,7 +449,8 @@ class ExcelCompiler:
 
         cell_or_range = self.cell_map[address]
 
-        if cell_or_range.value != value:  # pragma: no branch
+        if (cell_or_range.value != value or
+                type(cell_or_range.value) is not type(value)):  # pragma: no branch
             # need to be able to 'set' an empty cell, set to not None
             cell_or_range.value = value
 
